@@ -138,9 +138,15 @@ class AbstractClass:
             raise Unknown("recursion depth")
         try:
             params = m.params()
-            env = {params[0]: self_obj, "len": self._len}
-            for p, v in zip(params[1:], args):
-                env[p] = v
+            kinds = [d.name.rsplit(".", 1)[-1] for d in m.decorators]
+            if "staticmethod" in kinds:
+                env = {"len": self._len}
+                for p, v in zip(params, args):
+                    env[p] = v
+            else:
+                env = {params[0]: self_obj, "len": self._len}
+                for p, v in zip(params[1:], args):
+                    env[p] = v
             return Evaluator(self._hooks()).run_body(X.body_wo_doc(m.node), env)
         finally:
             self.depth -= 1
